@@ -28,13 +28,13 @@ class TlcResult:
 
 
 def run(module, cfg, cwd, workers=8, timeout=600, env=None, simulate=None, depth=None, seed=None,
-        coverage=False, extra=(), heap="4g", deadlock=None, dfs_queue=False, keep_out=True):
+        coverage=False, extra=(), heap="4g", deadlock=None, dfs_queue=False, keep_out=True, lib=()):
     """module: X.tla (relative to cwd); cfg: config file (relative to cwd)."""
     meta = tempfile.mkdtemp(prefix="tlc.", dir=_workdir())
-    cmd = ["java", "-XX:+UseParallelGC", "-Xmx" + heap, "-DTLA-Library=" + os.path.join(VERIF, "specs", "common")]
+    cmd = ["java", "-XX:+UseParallelGC", "-Xss512m", "-Xmx" + heap, "-DTLA-Library=" + os.pathsep.join([os.path.join(VERIF, "specs", "common")] + list(lib))]
     if dfs_queue:
         cmd.append("-Dtlc2.tool.queue.IStateQueue=StateDeque")
-    cmd += ["-cp", JAR, "tlc2.TLC", "-metadir", meta, "-workers", str(workers), "-config", cfg]
+    cmd += ["-cp", JAR, "tlc2.TLC", "-noGenerateSpecTE", "-metadir", meta, "-workers", str(workers), "-config", cfg]
     if simulate:
         cmd += ["-simulate", "num=%d" % simulate]
         if depth:
